@@ -8,4 +8,4 @@ Extraction "model.ml"
   inew irun arun
   format_path simple_fmt_path core reg_path request_path is_fixed_path
   wrequest spec_status spec_events
-  exec_block rinit den_block handle_request ctx_init fresh_ctx onion apply_all apply_eff prog sort_strs str_leb default_404 default_405.
+  exec_block rinit den_block handle_request ctx_init fresh_ctx onion apply_all apply_eff prog sort_strs str_leb default_404 default_405 k_recover.
